@@ -191,13 +191,13 @@ PURE_BUILTINS = {
 }
 SAFE_METHODS = {
     list: {'index', 'count', 'copy'}, tuple: {'index', 'count'},
-    dict: {'keys', 'values', 'items', 'get', 'copy'},
+    dict: {'keys', 'values', 'items', 'get', 'copy', '__contains__', '__getitem__'},
     str: {'startswith', 'endswith', 'lower', 'upper', 'join', 'split', 'format', 'strip', 'replace', 'index', 'count', 'find', 'ljust', 'rjust', 'center', 'zfill', 'lstrip', 'rstrip',
           'rfind', 'rsplit', 'partition', 'rpartition', 'isdigit', 'isalpha', 'isalnum', 'title', 'capitalize', 'splitlines', 'expandtabs'},
     set: {'union', 'copy', 'intersection', 'difference', 'issubset'}, slice: {'indices'},
 }
 MUTATORS = {list: {'append', 'extend', 'insert', 'reverse', 'sort', 'pop', 'remove'},
-            dict: {'update', 'setdefault', 'pop'}, set: {'add', 'update', 'discard'}}
+            dict: {'update', 'setdefault', 'pop', '__setitem__', '__delitem__', 'clear'}, set: {'add', 'update', 'discard'}}
 
 
 class Evaluator(object):
@@ -693,6 +693,8 @@ class Evaluator(object):
                 o[self._hashable(k)] = value
             elif isinstance(o, list):
                 o[k] = value
+            elif isinstance(o, Obj) and hasattr(type(o), '_methods_of') and '__setitem__' in type(o)._methods_of():
+                self.call_value(type(o)._methods_of()['__setitem__'], [o, k, value])          # container class of the analysed code
             else:
                 raise NotConst('subscript store')
         else:
@@ -758,6 +760,9 @@ class Evaluator(object):
                 if isinstance(t, ast.Subscript) and not isinstance(t.slice, ast.Slice):
                     o = self.ev(t.value, loc)
                     k = self.ev(t.slice, loc)
+                    if isinstance(o, Obj) and hasattr(type(o), '_methods_of') and '__delitem__' in type(o)._methods_of():
+                        self.call_value(type(o)._methods_of()['__delitem__'], [o, k])
+                        continue
                     if not isinstance(o, (list, dict)):
                         raise NotConst('del on %s' % type(o).__name__)
                     try:
